@@ -70,7 +70,14 @@ func runSeed(base uint64, prop string, idx int) uint64 {
 
 // runOnce executes one run; harness-side panics that signal a crash of the code under test
 // (refCrash) become violations, anything else propagates (exit 2 territory).
+// procsFor: the number of processors the code under test is told it has (runtime.GOMAXPROCS) varies
+// per run and is a function of the run's seed, so that a replay sees the same value.  The simulated
+// schedule does not depend on it (one task runs at a time); code that sizes pools, semaphores or
+// work splits from GOMAXPROCS does.
+func procsFor(seed uint64) int { return []int{1, 1, 2, 16}[(seed>>9)%4] }
+
 func runOnce(eng Engine, rc *RunCtx) (o *Outcome) {
+	runtime.GOMAXPROCS(procsFor(rc.Seed))
 	defer freeAllC()
 	defer func() {
 		if r := recover(); r != nil {
